@@ -46,12 +46,14 @@ int main(int argc, char *argv[]) {
         }
       }
     }
-    if (driver.runCatchExceptions(xcmp::DriverAction::EMIT_BINARY, inputFilename, true, "a.bin", false) == 0) {
-      hexsim::Processor processor(std::cin, std::cout, maxCycles);
-      processor.setTracing(trace);
-      processor.load("a.bin");
-      processor.run();
+    int status = driver.runCatchExceptions(xcmp::DriverAction::EMIT_BINARY, inputFilename, true, "a.bin", false);
+    if (status != 0) {
+      return status;
     }
+    hexsim::Processor processor(std::cin, std::cout, maxCycles);
+    processor.setTracing(trace);
+    processor.load("a.bin");
+    return processor.run();
   } catch (const std::exception &e) {
     std::cerr << boost::format("Error: %s\n") % e.what();
     return 1;
